@@ -281,6 +281,22 @@ func (w *World) existingKey(n *Node) *Node {
 		return nil
 	}
 	// Go map iteration order must not influence the run: choose by sorted order with the case PRNG.
+	if len(n.M) > 256 {
+		// large maps (deep-tree cases): sorting after every insertion / removal would dominate the run; pick the entry
+		// whose key hash is closest (xor metric) to a PRNG target - independent of the iteration order, O(n)
+		t := w.rng.Uint64()
+		var best *Entry
+		var bd uint64
+		for ks, e := range n.M {
+			if e.h == 0 {
+				e.h = hashBytes([]byte(ks)) | 1
+			}
+			if d := e.h ^ t; best == nil || d < bd {
+				best, bd = e, d
+			}
+		}
+		return best.Key
+	}
 	es := n.sortedEntries()
 	return es[w.rng.Intn(len(es))].Key
 }
